@@ -302,7 +302,7 @@ static Bytes canonical(const Params &p, const Material &m, const Bytes &in, size
     }
     // fresh object, one absorb, one squeeze
     *used_oneshot = false;
-    AnyState *st = (AnyState *)aligned_alloc(64, sizeof(AnyState));
+    AnyState *st = (AnyState *)aalloc(64, sizeof(AnyState));
     memset(st, 0x3c, sizeof(AnyState));
     lib_init(st, p, m, false);
     if (has_absorb(p.kind)) lib_absorb(st, p.kind, ptr(in), in.size());
@@ -420,10 +420,12 @@ struct StreamWorld : World {
                 gen_init(r, pl, slot, "reinit", r.chance(3, 4) ? o.kind : -1);
                 o.kind = (int)pl.ops.back().a[1];
                 o.phase = 0; o.absorbed = o.squeezed = 0;
-            } else if (c < 95) {
+            } else if (c < 93) {
                 pl.add("end", {slot});
                 pl.add("free", {slot});
                 o.live = false;
+            } else if (c < 95) {
+                pl.add("perm", {slot, (int64_t)r.below(12), (int64_t)(r.next() >> 1)});
             } else {
                 pl.add("free", {slot}); // mid-stream free
                 o.live = false;
@@ -651,6 +653,24 @@ struct StreamWorld : World {
         if (c.record) { c.run->fault("obj.copy"); c.run->state(fmt("copy/%d/%d/%u", s.p.kind, s.phase, (unsigned)(s.in.size() % 8))); }
     }
 
+    // a bare permutation state used through the public permutation API, then freed (C13: nothing secret may remain)
+    static void do_perm(Ctx &c, const Op &op)
+    {
+        alignas(16) static unsigned char mem[sizeof(ascon_state_t) + 16];
+        memset(mem, 0xD7, sizeof mem);
+        ascon_state_t *st = (ascon_state_t *)mem;
+        uint8_t b[40], o[40];
+        fill_bytes(b, 40, op.u(2) ^ c.salt);
+        ascon_init(st);
+        ascon_overwrite_bytes(st, b, 0, 40);
+        ascon_permute(st, (uint8_t)(op.u(1) % 12));
+        ascon_add_bytes(st, b, 3, 11);
+        ascon_extract_bytes(st, o, 0, 40);
+        ascon_free(st);
+        if (c.record) c.run->fold(o, 40);
+        if (c.residue) c.residue->push_back(Residue{c.run->cur_op, -1, NKINDS, Bytes(mem, mem + sizeof(ascon_state_t))});
+    }
+
     void pass(const Plan &plan, Run &run, uint64_t salt, std::vector<Residue> *res, bool record)
     {
         Ctx c;
@@ -659,7 +679,7 @@ struct StreamWorld : World {
         c.page = plan.knob("page", 0) != 0;
         c.residue = res;
         c.record = record;
-        c.slots = (AnyState *)aligned_alloc(64, sizeof(AnyState) * NSLOTS);
+        c.slots = (AnyState *)aalloc(64, sizeof(AnyState) * NSLOTS);
         memset(c.slots, 0xD7, sizeof(AnyState) * NSLOTS);
         int idx = 0;
         for (const Op &op : plan.ops) {
@@ -673,6 +693,7 @@ struct StreamWorld : World {
             else if (op.name == "end") do_end(c, op);
             else if (op.name == "copy") do_copy(c, op);
             else if (op.name == "free") do_free(c, (int)(op.u(0) % NSLOTS), true);
+            else if (op.name == "perm") do_perm(c, op);
         }
         for (int s = 0; s < NSLOTS; ++s) do_free(c, s, false);
         free(c.slots);
@@ -692,7 +713,7 @@ struct StreamWorld : World {
                     size_t d = 0;
                     while (d < r1[i].bytes.size() && r1[i].bytes[d] == r2[i].bytes[d]) ++d;
                     run.cur_op = r1[i].op;
-                    run.violation("C13", "residue_after_free", kind_name[r1[i].kind],
+                    run.violation("C13", "residue_after_free", r1[i].kind == NKINDS ? "ascon_state_t" : kind_name[r1[i].kind],
                                   fmt("object bytes after free differ between twin-secret runs at offset %zu of %zu", d, r1[i].bytes.size()));
                 }
             }
